@@ -14,9 +14,11 @@ VerdictOK(o) == IF Cancelled(o) THEN o.r = "verdict" /\ o.status = 2
 \* a cancelled program may be killed before it has written anything
 TableOK(o)  == o.fds = <<"0:null", "1:null", "2:null", "3:own">> \/ (Cancelled(o) /\ o.fds = <<>>)
 EffectOK(o) == o.marker = o.expmarker \/ (Cancelled(o) /\ o.marker = "")
-Judge(o) == VerdictOK(o) /\ TableOK(o) /\ EffectOK(o)
+\* no run receives another run's trap events: the handler of a traced run is only shown its own paths
+TrapsOK(o)  == o.foreign = 0 /\ (o.kind = "ptracet" => o.traps > 0)
+Judge(o) == VerdictOK(o) /\ TableOK(o) /\ EffectOK(o) /\ TrapsOK(o)
 Bad == { i \in DOMAIN Obs : ~Judge(Obs[i]) }
-ASSUME ndJsonSerialize("bad.ndjson", SetToSeq({ [i |-> i, verdict |-> VerdictOK(Obs[i]), table |-> TableOK(Obs[i]), effect |-> EffectOK(Obs[i])] : i \in Bad }))
+ASSUME ndJsonSerialize("bad.ndjson", SetToSeq({ [i |-> i, verdict |-> VerdictOK(Obs[i]), table |-> TableOK(Obs[i]), effect |-> EffectOK(Obs[i]), traps |-> TrapsOK(Obs[i])] : i \in Bad }))
 ASSUME PrintT(<<"judged", Len(Obs), Cardinality(Bad)>>)
 VARIABLE x
 Init == x = 0
